@@ -96,6 +96,8 @@ def gen(tier, seed, shard, nshards):
 
 
 def setup(rec):
+    G.self_check()
+    rec.count("oracle:self-check-passed")
     if len(G.all_dag_codes(4)) != 543 or len(G.class_table(4)) != 185:
         raise RuntimeError("oracle self-check failed")
 
@@ -135,6 +137,8 @@ def _judge_dag(U, out, A, Imask, family, case, rec, key, chain_variants=(True,))
         rec.exception_violation("C10:dag_to_icpdag-exception", family, case, "dag_to_icpdag raised %s" % type(e).__name__, e)
         return
     got = gmat.masks(res)
+    if (sum(out) + Imask) % 4 == 0:
+        _gc.repeat_after_overwrite(rec, family, case, "C10", "dag_to_icpdag", U.dag_to_icpdag, (np.array(A, copy=True), set(I)), res)
     if got != wantg:
         Pw, Pg = G.Parts(wantg), G.Parts(got)
         kind = "skeleton" if Pg.adj != Pw.adj else ("left-undirected" if any(Pg.nb[i] & ~Pw.nb[i] for i in range(p)) else "over-oriented")
